@@ -88,14 +88,17 @@ def oracle_order(ctx: Ctx, d: dict) -> None:
         try:
             r3 = impl.plain(order_keys(nest(d)))
             sx = SDict(nest(d)); sx.order_keys(); r4 = impl.plain(dict(sx))
-            with impl.scratch() as td:
-                DictWriter.write(nest(d), td / "o", mode="w", order=True)
-                r5 = spec.strip_placeholders(impl.plain(DictReader.read(td / "o")))
+            r5 = None
+            if c01_in_dom(d):          # the file route only for dicts of the writer's value domain
+                with impl.scratch() as td:
+                    DictWriter.write(nest(d), td / "o", mode="w", order=True)
+                    r5 = spec.strip_placeholders(impl.plain(DictReader.read(td / "o")))
         except Exception as e:  # noqa: BLE001
             ctx.violation("ordering a dict whose nested dicts are SDict objects raises", {"kind": "order", "d": enc(d)}, repr(e), "ordered dict"); return
         if not same(r3, r) or not same(r4, r):
             ctx.violation("ordering a dict whose nested dicts are SDict objects changes the content", {"kind": "order", "d": enc(d)}, enc(r3 if not same(r3, r) else r4), enc(r))
-        elif spec.unordered(r5) != spec.unordered(spec.norm(r)) and c01_in_dom(d):
+        elif r5 is not None and spec.unordered(r5) != spec.unordered(spec.norm(r)) and not any(
+                t in repr(enc(spec.norm(r))) for t in ("'inf'", "'-inf'", "'nan'")):      # (number strings beyond float range: finding D2 of C01/C04)
             ctx.violation("a dict whose nested dicts are SDict objects, written with order=True, reads back as different data", {"kind": "order", "d": enc(d)}, enc(r5), enc(spec.norm(r)))
 
 
